@@ -3,8 +3,10 @@
 Functions under contract: toc.TocFetcher.start/_new_packet_cb/_request_toc_element/_toc_fetch_finished, toc.Toc.add_element/
 get_element/get_element_id/get_element_by_id/get_element_by_complete_name, log.LogTocElement.__init__, param.ParamTocElement.
 __init__/mark_persistent/is_persistent/is_extended/get_readable_access, log.Log.refresh_toc/_new_packet_cb (reset branch)/
-_send_reset_packet, param.Param.refresh_toc (incl. the nested refresh_done), param._ExtendedTypeFetcher.__init__/_new_packet_cb/
-request_extended_types/set_callback/run/_close.
+_send_reset_packet, param.Param.refresh_toc (incl. the nested refresh_done)/_disconnected/_connection_requested, param._ExtendedTypeFetcher.
+__init__/_new_packet_cb/request_extended_types/set_callback/run/_close, toc.Toc.clear, toc.TocFetcher._disconnected/_stop_listening,
+platformservice.PlatformService.fetch_platform_informations/_request_protocol_version/_crt_service_callback/_platform_callback/
+get_protocol_version.
 
 Style: histories of REAL calls on REAL objects (real constructors) against a device model written in the contract.  The device
 holds a table T = [(type byte, group, name)], a checksum and answers whatever request the library transmits, in the generation
@@ -30,9 +32,16 @@ How the clauses of the design (DESIGN.md, C03, O1..O6) are decided
                                    byte content, every index: complete, not a sample
   O5 lookup agreement ............ toc.lookups.K (K = 0..3 entries, symbolic names and indices incl. 0 and > 255, every way the entries
                                    share groups), and again on every downloaded table in fetch.* / log.* / param.*
-  O6 persistence markers ......... xtype.step (one packet, any outstanding index / count), param.refresh_toc.* (whole sequence:
-                                   requests for exactly the extended entries, completion after the last answer, is_persistent()
-                                   of every entry == device answer)
+  O6 persistence markers ......... xtype.step (one packet, any outstanding index / count), xtype.request (request encoding and attribution
+                                   for any index 0..65535), param.refresh_toc.* (whole sequence: requests for exactly the extended
+                                   entries, completion after the last answer, is_persistent() of every entry == device answer; also with
+                                   the reply handled before send_packet has returned to the requesting thread (.early-reply) and with the
+                                   table coming from the cache (.cache-hit, indices symbolic))
+  O7 second use .................. log.reconnect.* / param.reconnect.*: a second connection on the same Log / Param object to a device with
+                                   another table, checksum and protocol generation, after a complete or an interrupted first download:
+                                   nothing of the first table, its cache or its completion callback survives; toc.clear (a cleared table
+                                   object used again); platform.version (the protocol version the generation switch tests is the one THIS
+                                   device reports, -1 for a device that does not identify itself; two connections in a row)
 
 ASSUMED
  * the device answers a request for index i with the entry i of one fixed table T, well formed: type | group | NUL | name | NUL, group
@@ -46,16 +55,26 @@ ASSUMED
  * protocol generation: the firmware offers the 16-bit commands (2/3) from protocol version 4 on (peer fact);
  * cache hit: the cached table equals the device table (C11).
 
-BOUNDED (stated per contract): whole-download histories use tables of 0..3 entries with fixed name lengths and, beyond entry 0 of
- one-entry tables, two type codes per entry; table sizes up to 65535 and all indices are covered by the step contracts, all
- lengths and type codes by decode.*.
+BOUNDED (stated per contract): whole-download histories use tables of 0..3 entries (0..5 in the thorough tier) with fixed name lengths
+ and, beyond entry 0 of one-entry tables, two type codes per entry; table sizes up to 65535 and all indices are covered by the step
+ contracts, all lengths and type codes by decode.*.  The thorough tier adds (thorough_only=True, same clauses): fetch.*.n4/n5, step.accept
+ with the longest namings (24 / 25 bytes) and an empty group, step.ignore for ten more payload lengths, info.reply with 1/3/8/23 trailing
+ bytes, toc.lookups.4, param.refresh_toc.n3.*, log.reconnect.n2-then-n3.*, param.reconnect.n2-then-n2.*.
 
 NOT COVERED (and why)
  * the path from the completion callbacks to Crazyflie.connected (log -> memories -> parameters -> connected.call) belongs to C02;
- * real threads: _ExtendedTypeFetcher.run is executed one loop iteration at a time in the schedule "one iteration, then the
-   reply" (the thread really blocks on its lock until the reply is handled on the dispatcher thread); other interleavings
-   are not explored; the blocked _ExtendedTypeFetcher thread and its never-removed port callback that every connection leaves
-   behind are not a table property;
+ * real threads: _ExtendedTypeFetcher.run is executed one loop iteration at a time in two explicit schedules: "one iteration, then
+   the reply" (the thread really blocks on its lock until the reply is handled on the dispatcher thread) and "the reply is handled
+   inside cf.send_packet" (.early-reply: the dispatcher thread is faster than the return of the transmitting call).  The TOC
+   download itself has no such race: every request after the first is transmitted BY the dispatcher thread, which also handles
+   the reply.  Pre-emption between two arbitrary statements is not explored;
+ * a connection that ends while a persistence-marker request is in flight: the _ExtendedTypeFetcher thread and its port callback
+   stay behind with the request outstanding (known finding of C02, interrupted-extended.*.request-in-flight); the sessions contracts
+   here interrupt the first connection during the table download or let it complete (after completion the left-over callback has no
+   outstanding index and ignores every packet: delivered to it in param.reconnect.*);
+ * TocFetcher._new_packet_cb does not look at the command byte of TOC-channel packets (only at the index field); with one device per
+   connection no packet other than the item reply can carry the outstanding index (a table-info reply carries N > index), so the
+   step.ignore contracts quantify over "other index / repeated info reply / other channel" and not over "same index, other command";
  * retransmission of unanswered requests (expected_reply patterns are checked here, the retry machinery is C10);
  * symbolic-LENGTH names: lengths are enumerated exhaustively instead (decode.*), whole histories use fixed lengths.
 
@@ -216,12 +235,12 @@ def entries_of(c):
     c.snapshot('entries', 'tuple(e for grp in toc.toc.values() for e in grp.values())')
 
 
-def _step_accept(kind, v2, lg, ln):
+def _step_accept(kind, v2, lg, ln, **opts):
     @contract('C03', 'step.accept.%s.%s.g%dn%d' % (kind, 'v2' if v2 else 'v1', lg, ln), FETCH_F + [ELEMENT[kind] + '.__init__'],
               clause='download step, reply for the outstanding index r (any 0 <= r < N, N up to 65535 resp. 255): the table gains exactly the '
                      'device entry r (index, group, name, type, access) and keeps the others; then either entry r+1 is requested (and '
                      'nothing else happens) or, after the last entry, the table is handed to the cache and completion is signalled once',
-              bounded='group/name lengths %d/%d (all lengths: decode.* contracts); one earlier entry in the table' % (lg, ln))
+              bounded='group/name lengths %d/%d (all lengths: decode.* contracts); one earlier entry in the table' % (lg, ln), **opts)
     def k(c):
         f, toc = in_download(c, kind, v2)
         c.int('t', 0, 255)
@@ -264,13 +283,13 @@ _step_accept('log', True, 1, 1)
 _step_accept('param', True, 1, 1)
 
 
-def _step_ignore(kind, v2, L):
+def _step_ignore(kind, v2, L, **opts):
     @contract('C03', 'step.ignore.%s.%s.len%d' % (kind, 'v2' if v2 else 'v1', L), [TOC + ':TocFetcher._new_packet_cb'],
               clause='download step, any other packet on the port - a reply carrying another index (duplicate of an earlier reply, delayed '
                      'reply to an earlier request, reply for a later index), a repeated table-info reply, a packet on another '
                      'channel - changes nothing and transmits nothing, whatever its content',
               bounded='packet payload length %d (3/2 = index only, 9, 30 = maximum); content symbolic' % L,
-              max_paths=200)        # 2-3 paths when the clause holds; a budget for trees in which junk reaches the decoders
+              max_paths=200, **opts)        # 2-3 paths when the clause holds; a budget for trees in which junk reaches the decoders
     def k(c):
         f, toc = in_download(c, kind, v2)
         c.int('chan', 0, 3)
@@ -335,37 +354,39 @@ for _kind in ('log', 'param'):
 
 # ------------------------------------------------------------------------------------------------ 4. whole downloads (histories)
 
-SHAPES = ((2, 1), (2, 2), (1, 3))        # (group length, name length) of device entries 0, 1, 2
-NARROW = {'log': ((3, 8), (1, 7), (2, 6)), 'param': ((6,), (9,), (3,))}
+SHAPES = ((2, 1), (2, 2), (1, 3), (3, 1), (1, 2))        # (group length, name length) of device entries 0, 1, 2, 3, 4
+NARROW = {'log': ((3, 8), (1, 7), (2, 6), (4, 5), (7, 2)), 'param': ((6,), (9,), (3,), (10,), (1,))}
 
 
-def device_table(c, kind, N, wide_types):
+def device_table(c, kind, N, wide_types, sfx='', shapes=SHAPES, one_type=False):
     """the device table T as contract inputs: type byte, group, name per entry (names unique: entries 0 and 1 may
-    share the group (symbolic equality), their names differ in length; entry 2 has another group length)"""
+    share the group (symbolic equality), their names differ in length; entry 2 has another group length; entries 2 and 4
+    may share the group, their names differ in length; entry 3 has a group length of its own).
+    `sfx` distinguishes the tables of two sessions (inputs t0a, g0a ... of an earlier session, N/crc likewise)."""
     for k in range(N):
-        c.int('t%d' % k, 0, 255)
+        c.int('t%d%s' % (k, sfx), 0, 255)
         if wide_types and k == 0:
-            c.require(valid_type(kind, 't0'))
+            c.require(valid_type(kind, 't0' + sfx))
         elif kind == 'log':
-            c.require('t%d in %r' % (k, NARROW['log'][k]))
+            c.require('t%d%s in %r' % (k, sfx, NARROW['log'][k][:1] if one_type else NARROW['log'][k]))
         else:
-            c.require('(t%d & 0x0F) in %r' % (k, NARROW['param'][k]))
-        lg, ln = SHAPES[k]
-        c.bytes('g%d' % k, lg), c.bytes('n%d' % k, ln)
-        c.require('all(b != 0 and b != 46 for b in g%d) and all(b != 0 and b != 46 for b in n%d)' % (k, k))
-        c.snapshot('G%d' % k, "g%d.decode('ISO-8859-1')" % k)
-        c.snapshot('M%d' % k, "n%d.decode('ISO-8859-1')" % k)
-    c.int('crc', 0, 2 ** 32 - 1)
-    c.let('N', N)
+            c.require('(t%d%s & 0x0F) in %r' % (k, sfx, NARROW['param'][k]))
+        lg, ln = shapes[k]
+        c.bytes('g%d%s' % (k, sfx), lg), c.bytes('n%d%s' % (k, sfx), ln)
+        c.require('all(b != 0 and b != 46 for b in g%d%s) and all(b != 0 and b != 46 for b in n%d%s)' % (k, sfx, k, sfx))
+        c.snapshot('G%d%s' % (k, sfx), "g%d%s.decode('ISO-8859-1')" % (k, sfx))
+        c.snapshot('M%d%s' % (k, sfx), "n%d%s.decode('ISO-8859-1')" % (k, sfx))
+    c.int('crc' + sfx, 0, 2 ** 32 - 1)
+    c.let('N' + sfx, N)
 
 
-def device_answer(c, kind, N):
+def device_answer(c, kind, N, sfx=''):
     """what the device answers to request `rq` (it implements both generations); returns (data expression, index or None)"""
     cmd = c.concretize('rq.data[0]')
     if cmd == 1:
-        return "pack('<BBI', 1, N, crc)", None
+        return "pack('<BBI', 1, N%s, crc%s)" % (sfx, sfx), None
     if cmd == 3:
-        return "pack('<BHI', 3, N, crc)", None
+        return "pack('<BHI', 3, N%s, crc%s)" % (sfx, sfx), None
     if cmd == 0:
         i = c.concretize('rq.data[1]')
         head = "pack('<BB', 0, %d)" % i
@@ -374,30 +395,30 @@ def device_answer(c, kind, N):
         head = "pack('<BH', 2, %d)" % i
     if not 0 <= i < N:
         return head, i
-    return head + " + bytes([t%d]) + g%d + bytes([0]) + n%d + bytes([0])" % (i, i, i), i
+    return head + " + bytes([t%d%s]) + g%d%s + bytes([0]) + n%d%s + bytes([0])" % (i, sfx, i, sfx, i, sfx), i
 
 
-def check_table(c, kind, N, toc='toc'):
+def check_table(c, kind, N, toc='toc', sfx=''):
     """the library table equals the device table, and the three lookups agree"""
-    c.ensure('same-number-of-entries', 'sum(len(grp) for grp in %s.toc.values()) == N' % toc)
+    c.ensure('same-number-of-entries', 'sum(len(grp) for grp in %s.toc.values()) == N%s' % (toc, sfx))
     tocv = c.get(toc)
     for k in range(N):
-        c.call((tocv, 'get_element'), c.get('G%d' % k), c.get('M%d' % k))
+        c.call((tocv, 'get_element'), c.get('G%d%s' % (k, sfx)), c.get('M%d%s' % (k, sfx)))
         c.ensure('entry-%d-present' % k, 'raised is None and result is not None')
         c.snapshot('e%d' % k, 'result')
         if c.get('e%d' % k) is None:
             continue
-        for j, s in enumerate(element_spec(c, kind, 'e%d' % k, 't%d' % k, str(k), 'g%d' % k, 'n%d' % k)):
+        for j, s in enumerate(element_spec(c, kind, 'e%d' % k, 't%d%s' % (k, sfx), str(k), 'g%d%s' % (k, sfx), 'n%d%s' % (k, sfx))):
             c.ensure('entry-%d-is-device-entry-%d' % (k, j), s)
         c.call((tocv, 'get_element_by_id'), k)
         c.ensure('lookup-by-index-%d-agrees' % k, 'raised is None and result is e%d' % k)
-        c.call((tocv, 'get_element_by_complete_name'), c.snapshot('cn', "G%d + '.' + M%d" % (k, k)))
+        c.call((tocv, 'get_element_by_complete_name'), c.snapshot('cn', "G%d%s + '.' + M%d%s" % (k, sfx, k, sfx)))
         c.ensure('lookup-by-complete-name-%d-agrees' % k, 'raised is None and result is e%d' % k)
         c.call((tocv, 'get_element_id'), c.get('cn'))
         c.ensure('index-by-complete-name-%d' % k, 'raised is None and result == %d' % k)
 
 
-def _fetch(kind, N, fault, cache='stub'):
+def _fetch(kind, N, fault, cache='stub', **opts):
     @contract('C03', 'fetch.%s.n%d.%s%s' % (kind, N, fault, '' if cache == 'stub' else '.realcache'),
               FETCH_F + [ELEMENT[kind] + '.__init__', TOC + ':Toc.get_element', TOC + ':Toc.get_element_by_id',
                          TOC + ':Toc.get_element_by_complete_name', TOC + ':Toc.get_element_id'],
@@ -407,7 +428,8 @@ def _fetch(kind, N, fault, cache='stub'):
                      'type and access, and lookup by (group, name), by index and by complete name agree; fault scenario: %s' % (N, fault),
               bounded='%d entries with group/name lengths %r; type code of entry 0 %s, of later entries one of two; '
                       'all lengths and type codes: decode.*; any index and table size: step.*' % (N, SHAPES[:N], 'any' if N == 1 else 'one of two'),
-              max_paths=300)        # at most 128 paths when the clauses hold; a budget for trees in which junk reaches the decoders
+              max_paths=300 if N <= 3 else 1500,       # at most 128 paths (N <= 3) when the clauses hold; a budget for trees in which junk reaches the decoders
+              **opts)
     def k(c):
         f, toc = fetcher(c, kind, cache)
         device_table(c, kind, N, wide_types=(N == 1))
@@ -474,6 +496,9 @@ for _kind in ('log', 'param'):
             _fetch(_kind, _N, _fault)
     _fetch(_kind, 2, 'none', cache='real')       # the real TocCache without directories: always a miss, insert is a no-op
     _fetch(_kind, 0, 'none', cache='real')
+    # thorough tier: longer tables (the same clauses, larger bound)
+    for _N, _fault in ((4, 'none'), (4, 'dup'), (4, 'stale'), (5, 'none'), (5, 'dup')):
+        _fetch(_kind, _N, _fault, thorough_only=True)
 
 
 # ------------------------------------------------------------------------------------------------ 5. the three lookups agree
@@ -482,12 +507,12 @@ TOC_F = [TOC + ':Toc.add_element', TOC + ':Toc.get_element', TOC + ':Toc.get_ele
          TOC + ':Toc.get_element_by_complete_name']
 
 
-def _lookups(K):
+def _lookups(K, **opts):
     @contract('C03', 'toc.lookups.%d' % K, TOC_F,
               clause='for a table with unique indices and unique (group, name) pairs (names without "."), lookup by complete name, by '
                      '(group, name) and by index return the same entry, for every entry - whatever its index (0 and > 255 included) and '
                      'however the entries are spread over groups; names and indices not in the table yield None, never an exception',
-              bounded='%d entries, group and name of 2 characters each (any characters 1..255 except "."); indices 0..65535' % K)
+              bounded='%d entries, group and name of 2 characters each (any characters 1..255 except "."); indices 0..65535' % K, **opts)
     def k(c):
         toc = c.new(TOC + ':Toc')
         c.let('toc', toc)
@@ -602,13 +627,26 @@ class Bus:
     were registered, so that the contract can deliver a received packet to every callback registered for its port at that
     moment, in registration order (the dispatcher's behaviour, property C07)."""
 
-    def __init__(self, c, link=True):
+    def __init__(self, c, link=True, sessions=False):
         self.c = c
         self.cbs = []
         self.on_send = None         # optional effect of cf.send_packet (used to stop a service loop after one iteration)
         self.ver = c.int('ver', -1, 255)
-        self.cf = c.ext('cf', attrs={'link': c.ext('link')} if link else None,
-                        returns={'platform.get_protocol_version': self.ver, 'add_port_callback': self._add,
+        attrs = {'link': c.ext('link')} if link else {}
+        version = self.ver
+        if sessions:
+            # several connections of one Crazyflie object: its REAL connection-state callback lists (so that what the library
+            # registers on them runs when the contract signals a disconnect / a connection request), and a protocol version per
+            # session (`vera` for the earlier session, `ver` for the last one)
+            self.disconnected = attrs['disconnected'] = c.new('cflib.utils.callbacks:Caller')
+            self.connection_requested = attrs['connection_requested'] = c.new('cflib.utils.callbacks:Caller')
+            self.vera = c.int('vera', -1, 255)
+            self.ver_now = self.vera
+
+            def version(_i, _a, _k):
+                return self.ver_now
+        self.cf = c.ext('cf', attrs=attrs or None,
+                        returns={'platform.get_protocol_version': version, 'add_port_callback': self._add,
                                  'remove_port_callback': self._remove, 'send_packet': self._send})
 
     @staticmethod
@@ -640,27 +678,51 @@ class Bus:
                 c.ensure('delivery-no-exception-' + tag, 'raised is None')
         c.snapshot('trace', 'trace')
 
+    def deliver_nested(self, port, channel, data_expr, tag):
+        """the same from inside a stub call of a running c.call (another thread's action at that point of the schedule);
+        returns the exceptions the callbacks ended with"""
+        c = self.c
+        pk = packet(c, port, 0, data_expr, 'rx_' + tag)
+        c.set(pk, 'channel', channel)
+        return [c.invoke_catch(cb, pk) for p, cb in list(self.cbs) if p == port]
 
-def serve_download(c, bus, kind, N, first, dup=False):
-    """answer the TOC requests (transmission number `first` onwards) until no new one appears; returns their number"""
+    def next_session(self):
+        """the connection ends and the application connects again (Crazyflie.close_link / _link_error_cb, then open_link):
+        `disconnected` and `connection_requested` are signalled to whatever the library registered on them"""
+        c = self.c
+        c.call((self.disconnected, 'call'), 'radio://0/80/2M')
+        c.ensure('disconnect-handled', 'raised is None')
+        c.call((self.connection_requested, 'call'), 'radio://0/80/2M')
+        c.ensure('connection-request-handled', 'raised is None')
+        self.ver_now = self.ver
+        c.reset_trace()
+        c.snapshot('trace', 'trace')
+
+
+def serve_download(c, bus, kind, N, first, dup=False, sfx='', limit=None):
+    """answer the TOC requests (transmission number `first` onwards) until no new one appears (or `limit` of them - the
+    connection is interrupted then); returns their number"""
     answered = 0
     asked = []
-    while answered < N + 3:
+    while answered < (N + 3 if limit is None else limit):
         if c.concretize("len(sent('cf.send_packet'))") != first + answered + 1:
             break
         last_request(c, first + answered)
         c.ensure('request-on-toc-channel-%d' % answered, "rq.port == PORT and rq.channel == 0 and tuple(rq_kw['expected_reply']) == tuple(rq.data)")
         c.ensure('generation-follows-protocol-version-%d' % answered,
-                 'rq.data[0] == ((3 if ver >= 4 else 1) if %d == 0 else (2 if ver >= 4 else 0))' % answered)
-        data, idx = device_answer(c, kind, N)
+                 'rq.data[0] == ((3 if ver%s >= 4 else 1) if %d == 0 else (2 if ver%s >= 4 else 0))' % (sfx, answered, sfx))
+        data, idx = device_answer(c, kind, N, sfx)
         asked.append(idx)
         c.snapshot('before', "len(sent('cf.send_packet'))")
-        bus.deliver(PORT[kind], 0, data, 'toc%d' % answered)
+        bus.deliver(PORT[kind], 0, data, 'toc%d%s' % (answered, sfx))
         if dup:
-            bus.deliver(PORT[kind], 0, data, 'toc%ddup' % answered)
+            bus.deliver(PORT[kind], 0, data, 'toc%ddup%s' % (answered, sfx))
         answered += 1
     c.let('asked', tuple(asked))
-    c.ensure('info-then-each-index-once-in-order', 'asked == (None,) + tuple(range(N))')
+    if limit is None:
+        c.ensure('info-then-each-index-once-in-order', 'asked == (None,) + tuple(range(N%s))' % sfx)
+    else:
+        c.ensure('info-then-the-first-indices-in-order', 'asked == ((None,) + tuple(range(N%s)))[:%d]' % (sfx, limit))
     return answered
 
 
@@ -714,7 +776,99 @@ PARAM_F = FETCH_F + [PAR + ':Param.refresh_toc', PAR + ':ParamTocElement.__init_
                      XTF + '.__init__', XTF + '._new_packet_cb', XTF + '.request_extended_types', XTF + '.set_callback', XTF + '.run', XTF + '._close']
 
 
-def _param_refresh(N, fault):
+def sequential_locks(c):
+    """The threading.Lock and queue.Queue objects that param.py creates during the run are the sequential models of the
+    engine in BOTH back ends (same semantics; a thread that would block for ever ends with the pseudo exception Deadlock at
+    once instead of after the native call time-out)."""
+    n = []
+
+    def mk_queue(*_a):
+        n.append(1)
+        return c.queue('par_queue%d' % len(n))
+
+    def mk_lock(*_a):
+        n.append(1)
+        return c.lock('par_lock%d' % len(n))
+    c.patch(PAR + ':Queue', c.ext('Queue', returns={'()': mk_queue}))
+    c.patch(PAR + ':Lock', c.ext('Lock', returns={'()': mk_lock}))
+
+
+def serve_markers(c, bus, ext, first_tx, fault, ident=str, pers='pers%d'):
+    """The persistence-marker phase of a parameter download: `ext` = positions of the device entries flagged as extended,
+    ident(j) = spec expression of the index of entry j, pers % j = name of the device's marker byte of entry j, first_tx =
+    number of transmissions before the first marker request.  The requesting thread is run one loop iteration at a time.
+    fault: none | dup (every reply twice) | stale (a reply for another index and a read reply first) | early-reply (the
+    reply is handled by the dispatcher thread before cf.send_packet has returned to the requesting thread: explicit schedule)"""
+    c.ensure('completion-waits-for-the-markers', "len(sent('toc_done')) == 0")
+    c.ensure('marker-fetcher-started-once', "len(sent('thread:_ExtendedTypeFetcher.start')) == 1")
+    if not c.concretize("len(sent('thread:_ExtendedTypeFetcher.start')) >= 1"):
+        return          # (the obligation above has failed)
+    c.snapshot('xf', "sent('thread:_ExtendedTypeFetcher.start')[0][1][0]")
+    xf = c.get('xf')
+    c.snapshot('queued', 'tuple(bytes(p.data) for p in xf.request_queue.queue)')
+    c.snapshot('EXT_ID', '(%s,)' % ', '.join(ident(j) for j in ext))
+    c.ensure('one-marker-request-per-extended-entry-carrying-its-index', "queued == tuple(pack('<BH', 2, j) for j in EXT_ID)")
+    c.ensure('marker-requests-on-misc-channel', 'all(p.port == 2 and p.channel == 3 for p in xf.request_queue.queue)')
+    for pos, j in enumerate(ext):
+        # one iteration of the thread's loop: it ends when the request has been handed to send_packet
+        c.set(xf, '_should_close', False)
+        nested = []
+        if fault == 'early-reply':
+            def effect(j=j):
+                c.set(xf, '_should_close', True)
+                nested.extend(bus.deliver_nested(2, 3, "pack('<BHB', 2, %s, %s)" % (ident(j), pers % j), 'x%d' % j))
+            bus.on_send = effect
+        else:
+            bus.on_send = lambda: c.set(xf, '_should_close', True)
+        c.snapshot('before', "len(sent('cf.send_packet'))")
+        c.call((xf, 'run'))
+        bus.on_send = None
+        c.ensure('marker-request-%d-transmitted' % j, "raised is None and len(sent('cf.send_packet')) == before + 1")
+        if not c.concretize("len(sent('cf.send_packet')) == before + 1"):
+            break           # (the obligation above has failed: the requesting thread is stuck)
+        last_request(c, first_tx + pos)
+        c.ensure('marker-request-%d-layout' % j, "rq.port == 2 and rq.channel == 3 and bytes(rq.data) == pack('<BH', 2, %s) and "
+                 "tuple(rq_kw['expected_reply']) == tuple(rq.data)" % ident(j))
+        if fault == 'stale':
+            # a reply for another index (e.g. a duplicate of an earlier answer) and a packet of another channel
+            c.int('sx%d' % j, 0, 65535), c.int('sb%d' % j, 0, 255)
+            c.require('sx%d != %s' % (j, ident(j)))
+            bus.deliver(2, 3, "pack('<BHB', 2, sx%d, sb%d)" % (j, j), 'xstale%d' % j)
+            bus.deliver(2, 1, "pack('<HB', %s, 1)" % ident(j), 'xread%d' % j)
+            c.ensure('nothing-changes-on-a-stale-marker-reply-%d' % j, "len(sent('toc_done')) == 0 and len(sent('cf.send_packet')) == before + 1")
+        if fault == 'early-reply':
+            c.let('nested_exc', tuple(nested))
+            c.ensure('early-reply-%d-handled-without-exception' % j, 'len(nested_exc) >= 1 and all(x is None for x in nested_exc)')
+        else:
+            bus.deliver(2, 3, "pack('<BHB', 2, %s, %s)" % (ident(j), pers % j), 'x%d' % j)
+        if fault == 'dup':
+            bus.deliver(2, 3, "pack('<BHB', 2, %s, %s)" % (ident(j), pers % j), 'x%ddup' % j)
+        c.ensure('completion-after-the-last-marker-only-%d' % j, "len(sent('toc_done')) == %d" % (1 if pos == len(ext) - 1 else 0))
+        c.ensure('marker-request-lock-free-%d' % j, 'not xf._lock.locked()')
+    c.ensure('no-marker-request-left', 'xf.request_queue.qsize() == 0')
+
+
+def check_param_table(c, N, sfx=''):
+    """the parameter table, including the persistence markers, when "connected" is signalled (toc = Param.toc)"""
+    kind = 'param'
+    c.ensure('same-number-of-entries', 'sum(len(grp) for grp in toc.toc.values()) == N%s' % sfx)
+    for j in range(N):
+        c.call((c.get('toc'), 'get_element'), c.get('G%d%s' % (j, sfx)), c.get('M%d%s' % (j, sfx)))
+        c.ensure('entry-%d-present' % j, 'raised is None and result is not None')
+        c.snapshot('e%d' % j, 'result')
+        if c.get('e%d' % j) is None:
+            continue
+        specs = element_spec(c, kind, 'e%d' % j, 't%d%s' % (j, sfx), str(j), 'g%d%s' % (j, sfx), 'n%d%s' % (j, sfx))[:-1]
+        specs.append('e%d.is_persistent() == ((t%d%s & 0x10) != 0 and pers%d%s == 1)' % (j, j, sfx, j, sfx))
+        for h, s in enumerate(specs):
+            c.ensure('entry-%d-is-device-entry-%d' % (j, h), s)
+        c.call((c.get('toc'), 'get_element_by_id'), j)
+        c.ensure('lookup-by-index-%d-agrees' % j, 'raised is None and result is e%d' % j)
+        c.call((c.get('toc'), 'get_element_by_complete_name'), c.snapshot('cn', "G%d%s + '.' + M%d%s" % (j, sfx, j, sfx)))
+        c.ensure('lookup-by-complete-name-%d-agrees' % j, 'raised is None and result is e%d' % j)
+
+
+def _param_refresh(N, fault, **opts):
     @contract('C03', 'param.refresh_toc.n%d.%s' % (N, fault), PARAM_F,
               clause='parameter table, from Param.refresh_toc (as called by the connection sequence) to the completion callback (which signals '
                      '"connected"): the table is downloaded, then the persistence marker of exactly the entries the device flags as extended is '
@@ -722,10 +876,13 @@ def _param_refresh(N, fault):
                      'the last marker arrived - Param.toc equals the device table and is_persistent() of every entry is the device\'s answer '
                      '(False for entries that are not extended); fault scenario: %s' % fault,
               bounded='%d entries, lengths %r, one type nibble per entry (flag bits symbolic); the marker-request thread is run one loop '
-                      'iteration at a time (sequential schedule: an iteration, then the reply)' % (N, SHAPES[:N]), max_paths=400)
+                      'iteration at a time (%s)' % (N, SHAPES[:N], 'explicit schedule: the reply is dispatched from inside cf.send_packet, before the '
+                                                    'requesting thread continues' if fault == 'early-reply' else 'sequential schedule: an iteration, then the reply'),
+              max_paths=400 if N <= 2 else 4000, **opts)
     def k(c):
         kind = 'param'
         c.virtual_time()
+        sequential_locks(c)
         bus = Bus(c)
         param = c.new(PAR + ':Param', bus.cf)
         c.let('param', param), c.let('PORT', 2)
@@ -746,60 +903,19 @@ def _param_refresh(N, fault):
         if not ext:
             c.ensure('no-extended-entries-completion-at-once', "len(sent('toc_done')) == 1 and len(calls('thread:_ExtendedTypeFetcher')) == 0")
         else:
-            c.ensure('completion-waits-for-the-markers', "len(sent('toc_done')) == 0")
-            c.ensure('marker-fetcher-started-once', "len(sent('thread:_ExtendedTypeFetcher.start')) == 1")
-            c.snapshot('xf', "sent('thread:_ExtendedTypeFetcher.start')[0][1][0]")
-            xf = c.get('xf')
-            c.snapshot('queued', 'tuple(bytes(p.data) for p in xf.request_queue.queue)')
-            c.ensure('one-marker-request-per-extended-entry-carrying-its-index', "queued == tuple(pack('<BH', 2, j) for j in EXT)")
-            c.ensure('marker-requests-on-misc-channel', 'all(p.port == 2 and p.channel == 3 for p in xf.request_queue.queue)')
-            for pos, j in enumerate(ext):
-                # one iteration of the thread's loop: it ends when the request has been handed to send_packet
-                c.set(xf, '_should_close', False)
-                bus.on_send = lambda: c.set(xf, '_should_close', True)
-                c.snapshot('before', "len(sent('cf.send_packet'))")
-                c.call((xf, 'run'))
-                bus.on_send = None
-                c.ensure('marker-request-%d-transmitted' % j, "raised is None and len(sent('cf.send_packet')) == before + 1")
-                last_request(c, N + 1 + pos)
-                c.ensure('marker-request-%d-layout' % j, "rq.port == 2 and rq.channel == 3 and bytes(rq.data) == pack('<BH', 2, %d) and "
-                         "tuple(rq_kw['expected_reply']) == tuple(rq.data)" % j)
-                if fault == 'stale' :
-                    # a reply for another index (e.g. a duplicate of an earlier answer) and a packet of another channel
-                    c.int('sx%d' % j, 0, 65535), c.int('sb%d' % j, 0, 255)
-                    c.require('sx%d != %d' % (j, j))
-                    bus.deliver(2, 3, "pack('<BHB', 2, sx%d, sb%d)" % (j, j), 'xstale%d' % j)
-                    bus.deliver(2, 1, "pack('<HB', %d, 1)" % j, 'xread%d' % j)
-                    c.ensure('nothing-changes-on-a-stale-marker-reply-%d' % j, "len(sent('toc_done')) == 0 and len(sent('cf.send_packet')) == before + 1")
-                bus.deliver(2, 3, "pack('<BHB', 2, %d, pers%d)" % (j, j), 'x%d' % j)
-                if fault == 'dup':
-                    bus.deliver(2, 3, "pack('<BHB', 2, %d, pers%d)" % (j, j), 'x%ddup' % j)
-                c.ensure('completion-after-the-last-marker-only-%d' % j, "len(sent('toc_done')) == %d" % (1 if pos == len(ext) - 1 else 0))
-                c.ensure('marker-request-lock-free-%d' % j, 'not xf._lock.locked()')
-            c.ensure('no-marker-request-left', 'xf.request_queue.qsize() == 0')
+            serve_markers(c, bus, ext, N + 1, fault)
         c.ensure('completion-signalled-exactly-once', "len(sent('toc_done')) == 1 and sent('toc_done')[0][1] == ()")
-        # the table, including the persistence markers, when "connected" is signalled
-        c.ensure('same-number-of-entries', 'sum(len(grp) for grp in toc.toc.values()) == N')
-        for j in range(N):
-            c.call((c.get('toc'), 'get_element'), c.get('G%d' % j), c.get('M%d' % j))
-            c.ensure('entry-%d-present' % j, 'raised is None and result is not None')
-            c.snapshot('e%d' % j, 'result')
-            if c.get('e%d' % j) is None:
-                continue
-            specs = element_spec(c, kind, 'e%d' % j, 't%d' % j, str(j), 'g%d' % j, 'n%d' % j)[:-1]
-            specs.append('e%d.is_persistent() == ((t%d & 0x10) != 0 and pers%d == 1)' % (j, j, j))
-            for h, s in enumerate(specs):
-                c.ensure('entry-%d-is-device-entry-%d' % (j, h), s)
-            c.call((c.get('toc'), 'get_element_by_id'), j)
-            c.ensure('lookup-by-index-%d-agrees' % j, 'raised is None and result is e%d' % j)
-            c.call((c.get('toc'), 'get_element_by_complete_name'), c.snapshot('cn', "G%d + '.' + M%d" % (j, j)))
-            c.ensure('lookup-by-complete-name-%d-agrees' % j, 'raised is None and result is e%d' % j)
+        check_param_table(c, N)
     return k
 
 
 for _N in (2, 1, 0):
     for _fault in (('none', 'dup', 'stale') if _N else ('none',)):
         _param_refresh(_N, _fault)
+_param_refresh(2, 'early-reply')
+_param_refresh(1, 'early-reply')
+_param_refresh(3, 'none', thorough_only=True)       # thorough tier: a longer table (the same clause, larger bound)
+_param_refresh(3, 'early-reply', thorough_only=True)
 
 
 @contract('C03', 'xtype.step', [XTF + '._new_packet_cb', XTF + '.__init__', XTF + '.set_callback', XTF + '._close', PAR + ':ParamTocElement.mark_persistent',
@@ -841,20 +957,20 @@ def xtype_step(c):
 
 # ------------------------------------------------------------------------------------------------ 8. the table-info reply
 
-def _info(kind):
-    @contract('C03', 'info.reply.%s' % kind, FETCH_F,
+def _info(kind, extras=(2, 0, 4), tag=None, **opts):
+    @contract('C03', 'info.reply.%s%s' % (kind, '.' + tag if tag else ''), FETCH_F,
               clause='the table-info reply: the announced number of entries (16 bit in the current generation - more than 255 entries are '
                      'announced and accepted -, 8 bit in the legacy one) and checksum are taken over exactly, whatever follows them in the '
                      'packet; the cache is asked for that checksum; on a miss entry 0 is requested, or, for an empty table, the empty '
                      'table is complete at once (completion signalled exactly once, nothing requested)',
-              bounded='0, 2 or 4 bytes following the checksum in the reply (content symbolic)')
+              bounded='%s bytes following the checksum in the reply (content symbolic)' % ' or '.join(str(x) for x in sorted(extras)), **opts)
     def k(c):
         f, toc = fetcher(c, kind)
         c.call((f, 'start'))
         c.require('raised is None')
         v2 = bool(c.concretize('ver >= 4'))
         c.int('N', 0, 65535 if v2 else 255), c.int('crc', 0, 2 ** 32 - 1)
-        c.bytes('extra', c.choice('n_extra', [2, 0, 4]))
+        c.bytes('extra', c.choice('n_extra', list(extras)))
         c.reset_trace()
         c.call((f, '_new_packet_cb'), packet(c, PORT[kind], 0, ("pack('<BHI', 3, N, crc)" if v2 else "pack('<BBI', 1, N, crc)") + ' + extra'))
         c.ensure('no-exception', 'raised is None')
@@ -912,3 +1028,441 @@ def xtype_foreign(c):
     c.call((xf, '_new_packet_cb'), pk)
     c.ensure('no-exception', 'raised is None')
     c.ensure('not-a-marker-reply-changes-nothing', "e.is_persistent() is False and xf._count == 1 and xf._req_param == r and xf._lock.locked() and len(trace) == 0")
+
+
+# ------------------------------------------------------------------------------------------------ 10. second use: a new connection on the same objects
+# The Crazyflie object (and with it Log, Param and the table objects they hold) lives across connections.  "Once connected is
+# signalled the tables are exactly the device's" therefore also speaks about the SECOND connection: the device may be another
+# one (other firmware, other table, other protocol generation); nothing of the earlier table may survive.
+
+SHAPES_B = ((2, 2), (2, 1), (1, 3))       # session-2 tables: entry 0 has the shape of the earlier entry 1 and vice versa (the same
+#                                           name may come back under another index)
+
+
+def _log_sessions(N1, N2, end1, **opts):
+    @contract('C03', 'log.reconnect.n%d-then-n%d.%s' % (N1, N2, end1),
+              FETCH_F + [LOG + ':Log.refresh_toc', LOG + ':Log._new_packet_cb', LOG + ':Log._send_reset_packet', LOG + ':LogTocElement.__init__',
+                         TOC + ':TocFetcher._disconnected', TOC + ':TocFetcher._stop_listening'],
+              clause='second connection on the same Log object (%s), to a device with another table, checksum and possibly another protocol '
+                     'generation: the earlier table is dropped when the refresh starts, the reset acknowledgement starts exactly one download, the '
+                     'completion callback and the cache of THIS refresh are used, each index is requested once, and at completion Log.toc equals '
+                     'the second device table exactly - no entry of the first table survives, the lookups agree' % (
+                         'the first download was complete' if end1 == 'complete' else 'the first connection was lost in the middle of its download'),
+              bounded='first table %d entries (one type code each), second table %d entries, lengths %r (two type codes per entry); the names of '
+                      'the two tables are unrelated inputs (equal names under other indices included)' % (N1, N2, SHAPES_B[:N2]), max_paths=600, **opts)
+    def k(c):
+        kind = 'log'
+        bus = Bus(c, sessions=True)
+        log = c.new(LOG + ':Log', bus.cf)
+        c.let('log', log), c.let('PORT', 5)
+        device_table(c, kind, N1, wide_types=False, sfx='a', one_type=True)
+        device_table(c, kind, N2, wide_types=False, shapes=SHAPES_B)
+        # ---- the first connection
+        done_a = c.ext('toc_done_a')
+        cache_a = c.ext('cache_a', returns={'fetch': None})
+        c.reset_trace()
+        c.call((log, 'refresh_toc'), done_a, cache_a)
+        c.require('raised is None')
+        bus.deliver(5, 1, 'bytes([5, 0, 0])', 'reset_a')
+        if end1 == 'complete':
+            serve_download(c, bus, kind, N1, 1, sfx='a')
+            c.ensure('first-download-complete', "len(sent('toc_done_a')) == 1")
+        else:
+            serve_download(c, bus, kind, N1, 1, sfx='a', limit=N1)       # info and all entries but the last
+            c.ensure('first-download-not-complete', "len(sent('toc_done_a')) == 0")
+        bus.next_session()
+        c.let('NCB', len(bus.cbs))
+        c.ensure('only-the-log-object-listens-between-connections', 'NCB == 1')
+        # ---- the second connection
+        done = c.ext('toc_done')
+        cache = c.ext('cache', returns={'fetch': None})
+        c.call((log, 'refresh_toc'), done, cache)
+        c.ensure('refresh-no-exception', 'raised is None')
+        c.ensure('only-the-reset-request-is-sent', "len(sent('cf.send_packet')) == 1 and len(sent('toc_done')) == 0")
+        c.ensure('old-table-dropped', 'log.toc is None')
+        bus.deliver(5, 1, 'bytes([5, 0, 0])', 'reset')
+        c.ensure('download-started', "len(sent('cf.send_packet')) == 2")
+        serve_download(c, bus, kind, N2, 1)
+        c.ensure('completion-signalled-exactly-once-to-this-refresh', "len(sent('toc_done')) == 1 and sent('toc_done')[0][1] == () and len(sent('toc_done_a')) == 0")
+        c.ensure('transmissions-are-reset-info-and-one-per-entry', "len(sent('cf.send_packet')) == N + 2")
+        c.ensure('cache-of-this-refresh-consulted-and-fed', "sent('cache.fetch')[0][1] == (crc,) and sent('cache.insert')[0][1][0] == crc and "
+                 "sent('cache.insert')[0][1][1] is log.toc.toc and len(calls('cache_a')) == 0")
+        c.let('NCB', len(bus.cbs))
+        c.ensure('fetcher-unregistered-log-still-listening', 'NCB == 1')
+        c.let('toc', c.getfield(log, 'toc'))
+        check_table(c, kind, N2)
+    return k
+
+
+_log_sessions(2, 1, 'complete')
+_log_sessions(1, 2, 'complete')
+_log_sessions(2, 2, 'interrupted')
+_log_sessions(2, 0, 'complete')
+_log_sessions(2, 3, 'complete', thorough_only=True)
+_log_sessions(2, 3, 'interrupted', thorough_only=True)
+
+
+def _param_sessions(N1, N2, end1, **opts):
+    @contract('C03', 'param.reconnect.n%d-then-n%d.%s' % (N1, N2, end1),
+              PARAM_F + [PAR + ':Param._disconnected', PAR + ':Param._connection_requested', TOC + ':TocFetcher._disconnected', TOC + ':TocFetcher._stop_listening'],
+              clause='second connection on the same Param object (%s), to a device with another table, checksum and possibly another protocol '
+                     'generation: when the completion callback of the second refresh runs (exactly once, after the last persistence marker), '
+                     'Param.toc equals the second device table exactly - no entry and no persistence marker of the first table survives - each '
+                     'index and each marker is requested once, and the lookups agree' % (
+                         'the first download incl. its persistence markers was complete' if end1 == 'complete' else
+                         'the first connection was lost in the middle of its table download'),
+              bounded='first table %d entries (entry 0 extended and persistent), second table %d entries, lengths %r (one type nibble per '
+                      'entry, flag bits symbolic); the names of the two tables are unrelated inputs; marker thread: one loop iteration, then '
+                      'the reply' % (N1, N2, SHAPES_B[:N2]), max_paths=1200, **opts)
+    def k(c):
+        kind = 'param'
+        c.virtual_time()
+        sequential_locks(c)
+        bus = Bus(c, sessions=True)
+        param = c.new(PAR + ':Param', bus.cf)
+        c.let('param', param), c.let('PORT', 2)
+        device_table(c, kind, N1, wide_types=False, sfx='a')
+        c.require('t0a == 0x16')             # extended float
+        for j in range(1, N1):
+            c.require('t%da & 0xF0 == 0' % j)        # later entries: plain read-write, not extended
+        device_table(c, kind, N2, wide_types=False, shapes=SHAPES_B)
+        for j in range(N2):
+            c.int('pers%d' % j, 0, 255)          # the second device's answer to "extended type of entry j"
+        c.let('pers0a', 1)
+        # ---- the first connection
+        done_a = c.ext('toc_done_a')
+        cache_a = c.ext('cache_a', returns={'fetch': None})
+        c.reset_trace()
+        c.call((param, 'refresh_toc'), done_a, cache_a)
+        c.require('raised is None')
+        if end1 == 'complete':
+            serve_download(c, bus, kind, N1, 0, sfx='a')
+            c.snapshot('xfa', "sent('thread:_ExtendedTypeFetcher.start')[0][1][0]")
+            xfa = c.get('xfa')
+            bus.on_send = lambda: c.set(xfa, '_should_close', True)
+            c.call((xfa, 'run'))
+            bus.on_send = None
+            c.require('raised is None')
+            bus.deliver(2, 3, "pack('<BHB', 2, 0, 1)", 'xa')
+            c.ensure('first-download-complete', "len(sent('toc_done_a')) == 1")
+            c.ensure('first-table-has-a-persistent-entry', "param.toc.get_element(G0a, M0a).is_persistent()")
+        else:
+            serve_download(c, bus, kind, N1, 0, sfx='a', limit=N1)       # info and all entries but the last
+            c.ensure('first-download-not-complete', "len(sent('toc_done_a')) == 0")
+        bus.next_session()
+        # ---- the second connection
+        done = c.ext('toc_done')
+        cache = c.ext('cache', returns={'fetch': None})
+        c.call((param, 'refresh_toc'), done, cache)
+        c.ensure('refresh-no-exception', 'raised is None')
+        c.ensure('only-the-info-request-is-sent', "len(sent('cf.send_packet')) == 1 and len(sent('toc_done')) == 0")
+        serve_download(c, bus, kind, N2, 0)
+        c.ensure('transmissions-are-info-and-one-per-entry', "len(sent('cf.send_packet')) == N + 1")
+        c.ensure('cache-of-this-refresh-consulted-and-fed', "sent('cache.fetch')[0][1] == (crc,) and sent('cache.insert')[0][1][0] == crc and "
+                 "sent('cache.insert')[0][1][1] is param.toc.toc and len(calls('cache_a')) == 0")
+        c.let('toc', c.getfield(param, 'toc'))
+        ext = [j for j in range(N2) if c.concretize('(t%d & 0x10) != 0' % j)]
+        c.let('EXT', tuple(ext))
+        if not ext:
+            c.ensure('no-extended-entries-completion-at-once', "len(sent('toc_done')) == 1 and len(calls('thread:_ExtendedTypeFetcher')) == 0")
+        else:
+            serve_markers(c, bus, ext, N2 + 1, 'none')
+        c.ensure('completion-signalled-exactly-once-to-this-refresh', "len(sent('toc_done')) == 1 and sent('toc_done')[0][1] == () and len(sent('toc_done_a')) == 0")
+        check_param_table(c, N2)
+    return k
+
+
+_param_sessions(2, 1, 'complete')
+_param_sessions(2, 1, 'interrupted')
+_param_sessions(2, 0, 'complete')
+_param_sessions(2, 2, 'complete', thorough_only=True)
+_param_sessions(2, 2, 'interrupted', thorough_only=True)
+
+
+@contract('C03', 'toc.clear', TOC_F + [TOC + ':Toc.clear'],
+          clause='a table object that is cleared and filled again (second use of the same object) holds exactly the entries added after the '
+                 'clearing: every lookup of an earlier entry - by index, by (group, name), by complete name - yields None, also when lookups '
+                 'happened before the clearing, and the new entries are found by all three lookups, an index of the earlier table included',
+          bounded='two entries before and one entry after the clearing; names of 2 characters; indices 0..65535 (the new index may equal an old one)')
+def toc_clear(c):
+    toc = c.new(TOC + ':Toc')
+    c.let('toc', toc)
+    for j in range(3):
+        c.str('g%d' % j, 2, lo=1, hi=255), c.str('n%d' % j, 2, lo=1, hi=255)
+        c.int('i%d' % j, 0, 65535)
+        c.require("all(ch != '.' for ch in g%d) and all(ch != '.' for ch in n%d)" % (j, j))
+        for h in range(j):
+            c.require('not (g%d == g%d and n%d == n%d)' % (j, h, j, h))
+    c.require('i0 != i1')
+    for j in range(3):
+        c.let('e%d' % j, c.obj(LOG + ':LogTocElement', ident=c.get('i%d' % j), group=c.get('g%d' % j), name=c.get('n%d' % j)))
+    for j in range(2):
+        c.call((toc, 'add_element'), c.get('e%d' % j))
+    for j in range(2):          # lookups while the first table is there
+        c.call((toc, 'get_element_by_id'), c.get('i%d' % j))
+        c.require('raised is None and result is e%d' % j)
+        c.call((toc, 'get_element_by_complete_name'), c.snapshot('cn%d' % j, "g%d + '.' + n%d" % (j, j)))
+        c.require('raised is None and result is e%d' % j)
+    c.call((toc, 'clear'))
+    c.ensure('clear-no-exception', 'raised is None')
+    c.ensure('table-empty', 'sum(len(grp) for grp in toc.toc.values()) == 0')
+    for j in range(2):
+        c.call((toc, 'get_element_by_id'), c.get('i%d' % j))
+        c.ensure('cleared-entry-%d-not-found-by-index' % j, 'raised is None and result is None')
+        c.call((toc, 'get_element'), c.get('g%d' % j), c.get('n%d' % j))
+        c.ensure('cleared-entry-%d-not-found-by-group-and-name' % j, 'raised is None and result is None')
+        c.call((toc, 'get_element_by_complete_name'), c.get('cn%d' % j))
+        c.ensure('cleared-entry-%d-not-found-by-complete-name' % j, 'raised is None and result is None')
+    c.call((toc, 'add_element'), c.get('e2'))
+    c.ensure('added-after-clearing', 'raised is None and sum(len(grp) for grp in toc.toc.values()) == 1')
+    c.call((toc, 'get_element_by_id'), c.get('i2'))
+    c.ensure('new-entry-by-index', 'raised is None and result is e2')
+    c.call((toc, 'get_element'), c.get('g2'), c.get('n2'))
+    c.ensure('new-entry-by-group-and-name', 'raised is None and result is e2')
+    c.call((toc, 'get_element_by_complete_name'), c.snapshot('cn2', "g2 + '.' + n2"))
+    c.ensure('new-entry-by-complete-name', 'raised is None and result is e2')
+    c.call((toc, 'get_element_id'), c.get('cn2'))
+    c.ensure('new-entry-index-of-complete-name', 'raised is None and result == i2')
+    for j in range(2):
+        c.call((toc, 'get_element_by_complete_name'), c.get('cn%d' % j))
+        c.ensure('earlier-entry-%d-still-absent' % j, 'raised is None and result is None')
+        c.call((toc, 'get_element_by_id'), c.get('i%d' % j))
+        c.ensure('earlier-index-%d-yields-only-the-new-entry' % j, 'raised is None and (result is e2 if i%d == i2 else result is None)' % j)
+
+
+@contract('C03', 'xtype.request', [XTF + '.request_extended_types', XTF + '.run', XTF + '._new_packet_cb', XTF + '.__init__', XTF + '.set_callback',
+                                   PAR + ':ParamTocElement.mark_persistent', TOC + ':Toc.get_element_by_id'],
+          clause='persistence markers, request encoding for any index (more than 255 parameters): the marker request of an entry carries its index '
+                 'as 16-bit little endian, for every index 0..65535, on the misc channel of the parameter port, with the request as retry pattern; '
+                 'requests go out one at a time, the next one only after the reply; the reply carrying that index marks exactly that entry '
+                 '(persistent iff the marker byte is 1) and completion is signalled exactly once, after the last reply',
+          bounded='two extended entries with symbolic indices; requesting thread: one loop iteration, then the reply')
+def xtype_request(c):
+    stop = []
+
+    def on_send(_i, _a, _k):
+        for xf_ in stop:
+            c.set(xf_, '_should_close', True)
+    cf = c.ext('cf', attrs={'link': c.ext('link')}, returns={'send_packet': on_send})
+    toc = c.new(TOC + ':Toc')
+    for j in range(2):
+        c.int('i%d' % j, 0, 65535), c.int('b%d' % j, 0, 255)
+        e = c.new(ELEMENT['param'], c.get('i%d' % j), c.snapshot('d%d' % j, "bytearray([0x16]) + b'g' + bytes([0]) + bytes([%d]) + bytes([0])" % (97 + j)))
+        c.let('e%d' % j, e)
+        c.invoke((toc, 'add_element'), e)
+    c.require('i0 != i1')
+    xf = c.new(XTF, cf, toc)
+    c.let('xf', xf)
+    stop.append(xf)
+    # the thread's lock and queue as their sequential models (blocking for ever = the pseudo exception Deadlock, at once)
+    c.set(xf, '_lock', c.lock('xf_lock')), c.set(xf, 'request_queue', c.queue('xf_queue'))
+    done = c.ext('done')
+    c.invoke((xf, 'set_callback'), done)
+    c.reset_trace()
+    c.call((xf, 'request_extended_types'), c.list([c.get('e0'), c.get('e1')]))
+    c.ensure('queueing-no-exception-nothing-transmitted-yet', "raised is None and len(sent('cf.send_packet')) == 0 and len(sent('done')) == 0")
+    c.ensure('one-request-per-entry-carrying-its-index', "tuple(bytes(p.data) for p in xf.request_queue.queue) == (pack('<BH', 2, i0), pack('<BH', 2, i1))")
+    for j in range(2):
+        c.set(xf, '_should_close', False)
+        c.call((xf, 'run'))
+        c.ensure('request-%d-transmitted-alone' % j, "raised is None and len(sent('cf.send_packet')) == %d" % (j + 1))
+        if not c.concretize("len(sent('cf.send_packet')) == %d" % (j + 1)):
+            return
+        last_request(c, j)
+        c.ensure('request-%d-layout' % j, "rq.port == 2 and rq.channel == 3 and bytes(rq.data) == pack('<BH', 2, i%d) and "
+                 "unpack('<H', bytes(rq.data[1:3]))[0] == i%d and tuple(rq_kw['expected_reply']) == tuple(rq.data)" % (j, j))
+        c.call((xf, '_new_packet_cb'), packet(c, 2, 3, "pack('<BHB', 2, i%d, b%d)" % (j, j), 'reply%d' % j))
+        c.ensure('reply-%d-no-exception' % j, 'raised is None')
+        c.ensure('reply-%d-marks-exactly-its-entry' % j, 'e0.is_persistent() == (b0 == 1) and e1.is_persistent() == (%s)' % ('False' if j == 0 else 'b1 == 1'))
+        c.ensure('completion-after-the-last-reply-only-%d' % j, "len(sent('done')) == %d" % j)
+        c.ensure('requester-released-%d' % j, 'not xf._lock.locked()')
+    c.ensure('no-request-left', 'xf.request_queue.qsize() == 0')
+
+
+@contract('C03', 'param.refresh_toc.cache-hit', PARAM_F,
+          clause='parameter table with the cache present and hit, from Param.refresh_toc to the completion callback: the cached table becomes '
+                 'Param.toc, no entry is requested from the device, but the persistence markers (which the cache does not hold) are requested for '
+                 'exactly the entries flagged as extended - whatever their indices, 0 and > 255 included - and when the completion callback runs, '
+                 'exactly once and not before the last marker arrived, is_persistent() of every entry is the device\'s answer',
+          bounded='cached table of two entries in two groups (indices and flag bits symbolic); marker thread: one loop iteration, then the reply',
+          max_paths=400)
+def param_cache_hit(c):
+    c.virtual_time()
+    sequential_locks(c)
+    bus = Bus(c)
+    param = c.new(PAR + ':Param', bus.cf)
+    c.let('param', param), c.let('PORT', 2)
+    groups = []
+    for j in range(2):
+        c.int('i%d' % j, 0, 65535), c.int('t%d' % j, 0, 255), c.int('pers%d' % j, 0, 255)
+        c.require('(t%d & 0x0F) == %d' % (j, (6, 9)[j]))
+        # an element as the cache decoder rebuilds it: type information and the extended flag, no persistence marker
+        e = c.new(ELEMENT['param'], c.get('i%d' % j), c.snapshot('d%d' % j, "bytearray([t%d]) + b'g%d' + bytes([0]) + b'nm' + bytes([0])" % (j, j)))
+        c.let('c%d' % j, e)
+        groups.append(('g%d' % j, c.dict([('nm', e)])))
+    c.require('i0 != i1')
+    cached = c.dict(groups)
+    c.let('cached', cached)
+    c.int('crc', 0, 2 ** 32 - 1)
+    done = c.ext('toc_done')
+    cache = c.ext('cache', returns={'fetch': cached})
+    c.reset_trace()
+    c.call((param, 'refresh_toc'), done, cache)
+    c.ensure('refresh-no-exception', 'raised is None')
+    c.ensure('only-the-info-request-is-sent', "len(sent('cf.send_packet')) == 1 and len(sent('toc_done')) == 0")
+    v2 = bool(c.concretize('ver >= 4'))
+    bus.deliver(2, 0, "pack('<BHI', 3, 2, crc)" if v2 else "pack('<BBI', 1, 2, crc)", 'info')
+    c.ensure('cache-asked-for-the-announced-checksum', "sent('cache.fetch')[0][1] == (crc,)")
+    c.ensure('cached-table-adopted', 'param.toc.toc is cached')
+    c.ensure('no-entry-requested', "len(sent('cf.send_packet')) == 1")
+    ext = [j for j in range(2) if c.concretize('(t%d & 0x10) != 0' % j)]
+    if not ext:
+        c.ensure('no-extended-entries-completion-at-once', "len(sent('toc_done')) == 1 and len(calls('thread:_ExtendedTypeFetcher')) == 0")
+    else:
+        serve_markers(c, bus, ext, 1, 'none', ident=lambda j: 'i%d' % j)
+    c.ensure('completion-signalled-exactly-once', "len(sent('toc_done')) == 1 and sent('toc_done')[0][1] == ()")
+    c.ensure('table-is-the-cached-table', "param.toc.toc is cached and param.toc.get_element('g0', 'nm') is c0 and param.toc.get_element('g1', 'nm') is c1")
+    for j in range(2):
+        c.ensure('persistence-marker-%d-is-the-device-answer' % j, 'c%d.is_persistent() == ((t%d & 0x10) != 0 and pers%d == 1)' % (j, j, j))
+        c.call((c.getfield(param, 'toc'), 'get_element_by_id'), c.get('i%d' % j))
+        c.ensure('lookup-by-index-%d-agrees' % j, 'raised is None and result is c%d' % j)
+
+
+PLT = 'cflib.crazyflie.platformservice'
+MAGIC = b'Bitcraze Crazyflie'
+
+
+@contract('C03', 'platform.version', [PLT + ':PlatformService.fetch_platform_informations', PLT + ':PlatformService._request_protocol_version',
+                                      PLT + ':PlatformService._crt_service_callback', PLT + ':PlatformService._platform_callback',
+                                      PLT + ':PlatformService.get_protocol_version', PLT + ':PlatformService.__init__'],
+          clause='protocol generation: the version the table downloads test (get_protocol_version() >= 4 selects the current generation) is the '
+                 'version THIS device reports - any value 0..255 - or -1 (legacy generation) for a device that does not identify itself; it is '
+                 'settled before the completion callback (which starts the downloads) runs, exactly once; on a second connection of the same '
+                 'object the version of the earlier device does not survive',
+          bounded='two connections in a row, each to an identifying device (version symbolic) or to one of three non-identifying replies')
+def platform_version(c):
+    cf = c.ext('cf')
+    ps = c.new(PLT + ':PlatformService', cf)
+    c.let('ps', ps)
+    for s in range(2):
+        fetched = c.ext('fetched%d' % s)
+        c.reset_trace()
+        c.call((ps, 'fetch_platform_informations'), fetched)
+        c.ensure('s%d-request-no-exception' % s, 'raised is None')
+        c.ensure('s%d-asks-the-device-to-identify-itself' % s, "calls() == ('cf.send_packet',) and sent('cf.send_packet')[0][1][0].port == 15 and "
+                 "sent('cf.send_packet')[0][1][0].channel == 1 and len(sent('fetched%d')) == 0" % s)
+        dev = c.choice('device%d' % s, ['identifies', 'silent-zeros', 'near-miss', 'short'])
+        if dev == 'identifies':
+            c.int('v%d' % s, 0, 255)
+            c.bytes('tail%d' % s, 4)
+            c.call((ps, '_crt_service_callback'), packet(c, 15, 1, '%r + tail%d' % (MAGIC, s), 'ident%d' % s))
+            c.ensure('s%d-version-requested-not-yet-complete' % s, "raised is None and len(sent('cf.send_packet')) == 2 and len(sent('fetched%d')) == 0 and "
+                     "sent('cf.send_packet')[1][1][0].port == 13 and sent('cf.send_packet')[1][1][0].channel == 1 and "
+                     "tuple(sent('cf.send_packet')[1][1][0].data) == (0,)" % s)
+            # packets of the platform port that are not the version reply change nothing
+            c.int('o%d' % s, 0, 255)
+            c.call((ps, '_platform_callback'), packet(c, 13, 0, "bytes([0, o%d])" % s, 'other%d' % s))
+            c.ensure('s%d-other-channel-ignored' % s, "raised is None and len(sent('fetched%d')) == 0 and len(sent('cf.send_packet')) == 2" % s)
+            c.call((ps, '_platform_callback'), packet(c, 13, 1, "bytes([0, v%d])" % s, 'version%d' % s))
+            c.ensure('s%d-version-is-the-device-version' % s, 'raised is None and ps.get_protocol_version() == v%d' % s)
+        else:
+            data = {'silent-zeros': bytes(30), 'near-miss': b'Bitcraze Crazyfli3 v1', 'short': b'Bitcraze'}[dev]
+            c.call((ps, '_crt_service_callback'), packet(c, 15, 1, repr(data), 'ident%d' % s))
+            c.ensure('s%d-legacy-generation' % s, "raised is None and ps.get_protocol_version() == -1 and len(sent('cf.send_packet')) == 1")
+        c.ensure('s%d-completion-exactly-once' % s, "len(sent('fetched%d')) == 1 and sent('fetched%d')[0][1] == ()" % (s, s))
+        if s == 1:
+            c.ensure('completion-of-the-earlier-connection-not-repeated', "len(sent('fetched0')) == 0")
+
+
+# ------------------------------------------------------------------------------------------------ 11. thorough tier: larger bounds of the step contracts
+
+for _kind in ('log', 'param'):
+    _step_accept(_kind, True, 12, 12, thorough_only=True)           # the longest naming of the current generation (24 bytes)
+    _step_accept(_kind, False, 13, 12, thorough_only=True)          # the longest naming of the legacy generation (25 bytes)
+    _step_accept(_kind, True, 0, 5, thorough_only=True)             # empty group
+    for _v2 in (True, False):
+        for _L in (4, 5, 6, 7, 8, 12, 16, 20, 24, 29):
+            _step_ignore(_kind, _v2, _L, thorough_only=True)
+_lookups(4, thorough_only=True)
+_info('log', (1, 3, 8, 23), 'more-trailing-bytes', thorough_only=True)
+_info('param', (1, 3, 8, 23), 'more-trailing-bytes', thorough_only=True)
+
+
+# ------------------------------------------------------------------------------------------------ 12. a connection lost while a marker request is outstanding
+# Consequence, for THIS property, of the known finding of C02 (interrupted-extended.*.request-in-flight: the _ExtendedTypeFetcher of a
+# connection that ends while its request is in flight stays registered with that request outstanding, its thread alive).  In the next
+# connection the left-over fetcher takes the new device's marker replies for its own, its thread transmits the rest of ITS queue on the
+# new link, and when its count reaches zero it calls the completion callback of the abandoned refresh - in Crazyflie the same
+# function that signals `connected` - before the fetcher of the new connection has applied the marker carried by that very packet.
+# FAILS on the unchanged tree (native replay); thorough tier only until the maintainer of this directory has decided.
+
+@contract('C03', 'param.reconnect.marker-outstanding', PARAM_F + [PAR + ':Param._disconnected', PAR + ':Param._connection_requested'],
+          clause='second connection on the same Param object after a first connection that was lost while a persistence-marker request was '
+                 'outstanding: nothing of the first connection is transmitted or signalled during the second one, and whenever completion is '
+                 'signalled the persistence marker of every entry of the second table is the second device\'s answer',
+          bounded='both tables: two extended entries; the first connection ends after its first marker request was transmitted; threads: one '
+                  'loop iteration at a time, the left-over thread continues as soon as its lock is released',
+          thorough_only=True, max_paths=600)
+def param_marker_outstanding(c):
+    kind = 'param'
+    c.virtual_time()
+    sequential_locks(c)
+    bus = Bus(c, sessions=True)
+    param = c.new(PAR + ':Param', bus.cf)
+    c.let('param', param), c.let('PORT', 2)
+    device_table(c, kind, 2, wide_types=False, sfx='a')
+    c.require('t0a == 0x16 and t1a == 0x19')
+    device_table(c, kind, 2, wide_types=False, shapes=SHAPES_B)
+    c.require('(t0 & 0x10) != 0 and (t1 & 0x10) != 0')
+    c.int('pers0', 0, 255), c.int('pers1', 0, 255)
+    # ---- the first connection: table complete, first marker request transmitted, then the link is lost
+    done_a = c.ext('toc_done_a', returns={'()': lambda *_: seen.append(('old', len(seen)))})
+    seen = []
+    cache_a = c.ext('cache_a', returns={'fetch': None})
+    c.reset_trace()
+    c.call((param, 'refresh_toc'), done_a, cache_a)
+    c.require('raised is None')
+    serve_download(c, bus, kind, 2, 0, sfx='a')
+    c.snapshot('xfa', "sent('thread:_ExtendedTypeFetcher.start')[0][1][0]")
+    xfa = c.get('xfa')
+
+    def iteration(xf):
+        c.set(xf, '_should_close', False)
+        bus.on_send = lambda: c.set(xf, '_should_close', True)
+        c.call((xf, 'run'))
+        bus.on_send = None
+    iteration(xfa)
+    c.require("raised is None and len(sent('toc_done_a')) == 0")
+    bus.next_session()
+    # ---- the second connection
+    at_done = []
+
+    def completion(*_a):
+        at_done.append(c.snapshot('at_done_%d' % len(at_done), '(e0n.is_persistent(), e1n.is_persistent())'))
+    done = c.ext('toc_done', returns={'()': completion})
+    c.set(xfa, '_done_callback', c.ext('toc_done_a', returns={'()': completion}))       # (same stub name; records the table state as well)
+    cache = c.ext('cache', returns={'fetch': None})
+    c.call((param, 'refresh_toc'), done, cache)
+    c.ensure('refresh-no-exception', 'raised is None')
+    serve_download(c, bus, kind, 2, 0)
+    c.ensure('transmissions-are-info-and-one-per-entry', "len(sent('cf.send_packet')) == N + 1")
+    c.let('toc', c.getfield(param, 'toc'))
+    for j in range(2):
+        c.call((c.get('toc'), 'get_element_by_id'), j)
+        c.require('raised is None and result is not None')
+        c.snapshot('e%dn' % j, 'result')
+    c.snapshot('xf', "sent('thread:_ExtendedTypeFetcher.start')[0][1][0]")
+    xf = c.get('xf')
+    for j in range(2):
+        iteration(xf)
+        c.ensure('marker-request-%d-transmitted' % j, 'raised is None')
+        bus.deliver(2, 3, "pack('<BHB', 2, %d, pers%d)" % (j, j), 'x%d' % j)
+        if c.concretize('not xfa._lock.locked()') and c.concretize('xfa.request_queue.qsize() > 0'):
+            iteration(xfa)          # the left-over thread was waiting for its lock
+    c.snapshot('marker_tx', "tuple(bytes(p[1][0].data) for p in sent('cf.send_packet')[N + 1:])")
+    c.ensure('only-the-requests-of-this-connection-are-transmitted', "marker_tx == (pack('<BH', 2, 0), pack('<BH', 2, 1))")
+    c.ensure('the-abandoned-refresh-signals-nothing', "len(sent('toc_done_a')) == 0")
+    c.ensure('completion-signalled-exactly-once', "len(sent('toc_done')) == 1")
+    for i in range(len(at_done)):
+        c.ensure('markers-complete-when-completion-is-signalled-%d' % i, 'at_done_%d == (pers0 == 1, pers1 == 1)' % i)
+    check_param_table(c, 2)
